@@ -298,7 +298,9 @@ def render_doc(rng, nodes, order=None, placement=None):
         files["incj.json"] = json.dumps(j)
     top = [native_stmt(x) for x in buckets["root"]]
     if buckets["nested"]:
-        top.insert(rng.randrange(len(top) + 1), "nest\n{\n    inner\n    {\n" + "\n".join("        " + native_stmt(x).replace("\n", "\n        ") for x in buckets["nested"]) + "\n    }\n}")
+        # the nested dicts are named by words, or (one time in three) numbered: cases { 0 { .. } }
+        outer, inner = ("nest", "inner") if rng.random() < 0.67 else ("cases", rng.choice(["0", "3", "12"]))
+        top.insert(rng.randrange(len(top) + 1), outer + "\n{\n    " + inner + "\n    {\n" + "\n".join("        " + native_stmt(x).replace("\n", "\n        ") for x in buckets["nested"]) + "\n    }\n}")
     if buckets["inlist"]:
         top.insert(rng.randrange(len(top) + 1), "lst\n(\n    {\n" + "\n".join("        " + native_stmt(x).replace("\n", "\n        ") for x in buckets["inlist"]) + "\n    }\n);")
     files["root"] = "\n".join(lines + top) + "\n"
